@@ -95,6 +95,12 @@ func AccessOf(v ssa.Value) Access {
 			fields = append(fields, "[]")
 			v = x.X
 			continue
+		case *ssa.Parameter:
+			// inside a helper looked into by GuardEdges: continue in the caller's frame
+			if b, ok := activeBindings[x]; ok {
+				v = b
+				continue
+			}
 		}
 		break
 	}
@@ -256,6 +262,11 @@ type SliceOpts struct {
 	StopAt func(ssa.Value) bool
 	// ThroughCalls: a call result also derives from the call's receiver and arguments.
 	ThroughCalls bool
+	// IntoCallees: follow a call of a function of the repository into the
+	// values it returns, up to this call depth; the callee's parameters map
+	// back to the call's arguments (so `seg := quoteSegment(x)` is seen as what
+	// quoteSegment returns). 0 = a call result is a leaf.
+	IntoCallees int
 }
 
 // Leaves computes the leaves of the backward slice of v inside its function
@@ -338,6 +349,12 @@ func Leaves(v ssa.Value, opts SliceOpts) []ssa.Value {
 		case *ssa.TypeAssert:
 			visit(x.X, depth)
 		case *ssa.Extract:
+			if c, ok := x.Tuple.(*ssa.Call); ok && depth < opts.IntoCallees {
+				if g := c.Call.StaticCallee(); g != nil && len(g.Blocks) > 0 && IsConsulFunc(g) {
+					followInto(g, x.Index, c, depth, opts, visit, addLeaf)
+					return
+				}
+			}
 			visit(x.Tuple, depth)
 		case *ssa.Next:
 			visit(x.Iter, depth)
@@ -407,11 +424,9 @@ func Leaves(v ssa.Value, opts SliceOpts) []ssa.Value {
 				}
 				return
 			}
-			if depth < opts.MaxDepth {
-				if f := x.Call.StaticCallee(); f != nil && f.Blocks != nil {
-					// follow results of the callee; parameters map back to args
-					idx := -1 // whole tuple
-					followCallee(f, idx, x, depth, visit, addLeaf)
+			if depth < opts.IntoCallees {
+				if g := x.Call.StaticCallee(); g != nil && len(g.Blocks) > 0 && IsConsulFunc(g) {
+					followInto(g, -1, x, depth, opts, visit, addLeaf)
 					return
 				}
 			}
@@ -424,11 +439,28 @@ func Leaves(v ssa.Value, opts SliceOpts) []ssa.Value {
 	return out
 }
 
-func followCallee(f *ssa.Function, _ int, call *ssa.Call, depth int, visit func(ssa.Value, int), addLeaf func(ssa.Value)) {
-	// Conservative: the call result derives from all its arguments and is itself a leaf.
-	addLeaf(call)
-	for _, a := range call.Call.Args {
-		visit(a, depth+1)
+// followInto: the leaves of what g returns (result idx, or every result when
+// idx < 0); leaves that are g's parameters continue at the call's arguments.
+func followInto(g *ssa.Function, idx int, call *ssa.Call, depth int, opts SliceOpts, visit func(ssa.Value, int), addLeaf func(ssa.Value)) {
+	sub := opts
+	sub.IntoCallees = opts.IntoCallees - depth - 1
+	for _, rt := range Returns(g) {
+		for i := range rt.Results {
+			if idx >= 0 && i != idx {
+				continue
+			}
+			for _, leaf := range Leaves(ResolveResult(rt, i), sub) {
+				if pa, ok := leaf.(*ssa.Parameter); ok && pa.Parent() == g {
+					for j, q := range g.Params {
+						if q == pa && j < len(call.Call.Args) {
+							visit(call.Call.Args[j], depth+1)
+						}
+					}
+					continue
+				}
+				addLeaf(leaf)
+			}
+		}
 	}
 }
 
